@@ -53,6 +53,10 @@ def panic_obs(obs):
     return (not isinstance(obs, dict)) or ("panic" in obs) or ("status" not in obs)
 
 
+def panic_obs_hist(obs):
+    return (not isinstance(obs, dict)) or ("panic" in obs) or ("steps" not in obs)
+
+
 def rand_case_flip(rng, name):
     out = bytearray(name)
     for i, c in enumerate(out):
